@@ -162,7 +162,7 @@ Proof.
   destruct (is_hardlink_reg _ Hl) as [Hreg Hln].
   assert (Hd : is_dir r = false).
   { rewrite <- (walk_is_dir sb cs r Hsb Hne Hat Ep). apply is_reg_not_dir; auto. }
-  destruct (walk_stat_proof t Hwf sb Hsb cs r Hne Hat Ep) as (Em & Eu & Eg & Es & Emt & _ & Ema & Emi & _).
+  destruct (walk_stat_proof t Hwf sb Hsb cs r Hne Hat Ep) as (Em & Eu & Eg & Es & Emt & Ex & Ema & Emi & _).
   assert (Hsym : is_symlink r = false).
   { unfold is_symlink. rewrite <- mode_symlink_nosock, <- Em.
     unfold AbsDest.is_reg in Hreg. rewrite !andb_true_iff, !negb_true_iff in Hreg. tauto. }
@@ -181,7 +181,7 @@ Proof.
   destruct (walk_entry_node st0 b0 Hin0) as (Hst0 & cs' & r' & Hne' & Hat' & Ep' & Eb').
   rewrite E0 in Ep'.
   destruct (node_unique t cs0 r cs' r' Hwf Hne0 Hne' Hat0 Hat' Ep') as [<- <-].
-  destruct (walk_stat_proof t Hwf st0 Hst0 cs0 r Hne0 Hat0 E0) as (Em0 & Eu0 & Eg0 & Es0 & Emt0 & _ & Ema0 & Emi0 & _).
+  destruct (walk_stat_proof t Hwf st0 Hst0 cs0 r Hne0 Hat0 E0) as (Em0 & Eu0 & Eg0 & Es0 & Emt0 & Ex0 & Ema0 & Emi0 & _).
   destruct (walk_hardlinks_proof t Hwf coherent_one_fs Hic st0 Hst0 cs0 r Hne0 Hat0 E0 Hd)
     as (cs00 & r00 & Hne00 & Hat00 & Hd00 & Ei00 & _ & Hleast00 & Eln0).
   rewrite Hsym in Eln0.
@@ -193,7 +193,7 @@ Proof.
   exists st0, b0. split; auto. split; [congruence|]. split; [rewrite E0; rewrite Ep; exact Hlt|].
   split; [rewrite (is_reg_cong st0 sb); auto; congruence|]. split; auto.
   split; [|congruence].
-  unfold link_meta_eq. rewrite Em, Eu, Eg, Es, Emt, Ema, Emi, Em0, Eu0, Eg0, Es0, Emt0, Ema0, Emi0. tauto.
+  unfold link_meta_eq. rewrite Em, Eu, Eg, Es, Emt, Ema, Emi, Ex, Em0, Eu0, Eg0, Es0, Emt0, Ema0, Emi0, Ex0. tauto.
 Qed.
 
 Theorem walk_views_are_wf_proof :
